@@ -33,6 +33,10 @@ type Frame struct {
 	ret     ssa.Value                // call instruction in the caller to bind (nil: none)
 	isDefer bool
 	depth   int
+	// the call that created this (inlined) frame
+	callC      *ssa.CallCommon
+	callArgs   []Val
+	callBefore *HeapSnap
 	// dry-run control: stop when leaving this block set / reaching this header
 	dryHeader *ssa.BasicBlock
 	dryBody   map[*ssa.BasicBlock]bool
@@ -1012,6 +1016,18 @@ func (x *Exec) doReturn(st *State, f *Frame, r *ssa.Return) []*State {
 	// inlined callee returns
 	st.stack = st.stack[:len(st.stack)-1]
 	caller := st.top()
+	if f.callC != nil {
+		var rv Val
+		switch len(res) {
+		case 0:
+		case 1:
+			rv = res[0]
+		default:
+			rv = TupleV{res}
+		}
+		x.recordAnchor(st, caller, f.callC, f.callArgs, rv, f.callBefore)
+		x.afterCall(st, caller, f.callC)
+	}
 	if f.isDefer {
 		// the RunDefers instruction in the caller is re-executed
 		return nil
